@@ -75,6 +75,29 @@ class NativeSource:
     def none(self):
         return None
 
+    def facade(self, **attrs):
+        """plain record object with exactly these attributes (stands for third-party objects such as PyVCF records)."""
+        import types
+        return types.SimpleNamespace(**attrs)
+
+    def extracted_fn(self, qual, stubs):
+        """The function ``qual`` of a repo module that cannot be IMPORTED in this environment (missing third-party
+        package), extracted mechanically: its FunctionDef is cut out of the file's AST and compiled in a namespace
+        holding the standard-library modules it uses plus ``stubs`` for the third-party names.  The text that runs is
+        the repository's; only the import statements of the module are dropped."""
+        import ast, itertools, warnings, os, re
+        mod, _, name = qual.rpartition(".")
+        path = os.path.join(os.getcwd(), "inscripta", "biocantor", *mod.split(".")) + ".py"
+        tree = ast.parse(open(path, encoding="utf-8").read())
+        fn = [n for n in tree.body if isinstance(n, ast.FunctionDef) and n.name == name][0]
+        fn.returns = None
+        for a in fn.args.args + fn.args.kwonlyargs:
+            a.annotation = None
+        ns = dict(itertools=itertools, warnings=warnings, re=re)
+        ns.update(stubs)
+        exec(compile(ast.Module(body=[fn], type_ignores=[]), path, "exec"), ns)
+        return ns[name]
+
 
 class EngineSource:
     """Symbolic (prims is None) or concrete-in-engine (prims given) inputs."""
@@ -171,6 +194,13 @@ class EngineSource:
 
     def none(self):
         return None
+
+    def facade(self, **attrs):
+        from .values import Opaque
+        return Opaque("facade", attrs=dict(attrs))
+
+    def extracted_fn(self, qual, stubs):
+        return self.fn(qual)  # the engine reads the AST; nothing is imported
 
     def nested_fn(self, outer_qual, name, closure_locals):
         """A function defined inside ``outer_qual`` with the given closure variables (engine only)."""
